@@ -23,17 +23,17 @@ type IDLit struct {
 }
 
 type QNode struct {
-	K     string           `json:"k"`
-	Key   string           `json:"key,omitempty"`
-	V     []string         `json:"v,omitempty"`   // abstract tag value
-	Lit   *string          `json:"lit,omitempty"` // concrete tag value (overrides v)
-	T     string           `json:"t,omitempty"`   // typed: feature type
-	Q     *QNode           `json:"q,omitempty"`
-	Qs    []*QNode         `json:"qs,omitempty"`
-	ID    *IDLit           `json:"id,omitempty"`
-	Pts   [][2]int64       `json:"pts,omitempty"`   // E7 lat,lng
-	Polys [][][][2]int64   `json:"polys,omitempty"` // polygons -> loops -> points
-	C     string           `json:"c,omitempty"`     // cap radius in metres (decimal)
+	K     string         `json:"k"`
+	Key   string         `json:"key,omitempty"`
+	V     []string       `json:"v,omitempty"`   // abstract tag value
+	Lit   *string        `json:"lit,omitempty"` // concrete tag value (overrides v)
+	T     string         `json:"t,omitempty"`   // typed: feature type
+	Q     *QNode         `json:"q,omitempty"`
+	Qs    []*QNode       `json:"qs,omitempty"`
+	ID    *IDLit         `json:"id,omitempty"`
+	Pts   [][2]int64     `json:"pts,omitempty"`   // E7 lat,lng
+	Polys [][][][2]int64 `json:"polys,omitempty"` // polygons -> loops -> points
+	C     string         `json:"c,omitempty"`     // cap radius in metres (decimal)
 }
 
 type Node struct {
